@@ -703,7 +703,7 @@ func (g *Gen) execInstr(in ssa.Instruction) error {
 				g.fail("defer inside a loop is outside the supported subset")
 			}
 		}
-		name := fmt.Sprintf("$defer:%d", k)
+		name := fmt.Sprintf("$defer:%s%d", g.inlinePrefix, k)
 		g.ghostSorts[name] = "Bool"
 		s.ghost[name] = "true"
 	case *ssa.RunDefers:
@@ -779,6 +779,11 @@ func (g *Gen) execUnOp(x *ssa.UnOp) {
 		}
 		v := g.define(x, g.load(s, xv, elem))
 		g.assumeTypeInv(v, g.ghostTerm(s, "$brk"))
+		// loaded("F"): the value most recently read from a field named F
+		if fn, _ := fieldNameOfAddr(x.X); fn != "" && g.selectors["$loaded:"+fn] && v.T != "" && g.ghostSorts["$loaded:"+fn] == g.st.sortOf(elem) {
+			g.cur = g.cur.clone()
+			g.cur.ghost["$loaded:"+fn] = v.T
+		}
 	case token.NOT:
 		g.define(x, not(xv.T))
 	case token.SUB:
@@ -1587,6 +1592,15 @@ func (g *Gen) prescanCalls() {
 	scan = func(fn *ssa.Function, depth int) {
 		for _, b := range fn.Blocks {
 			for _, in := range b.Instrs {
+				if ld, ok := in.(*ssa.UnOp); ok && ld.Op == token.MUL {
+					if fn, _ := fieldNameOfAddr(ld.X); fn != "" && g.selectors["$loaded:"+fn] {
+						gn := "$loaded:" + fn
+						if g.ghostSorts[gn] == "" {
+							g.ghostSorts[gn] = g.st.sortOf(ld.Type())
+							g.ghostTypes[gn] = ld.Type()
+						}
+					}
+				}
 				var cc *ssa.CallCommon
 				switch x := in.(type) {
 				case *ssa.Call:
